@@ -322,6 +322,9 @@ func ParseTableExpression(expr sqlparser.TableExpr) (logical.Node, error) {
 	case *sqlparser.JoinTableExpr:
 		return ParseJoinTableExpression(expr)
 	case *sqlparser.ParenTableExpr:
+		if len(expr.Exprs) != 1 {
+			return nil, errors.Errorf("a parenthesized table expression must contain exactly one table expression, got %d", len(expr.Exprs))
+		}
 		return ParseTableExpression(expr.Exprs[0])
 	case *sqlparser.TableValuedFunction:
 		return ParseTableValuedFunction(expr)
